@@ -5,6 +5,7 @@
 package main
 
 import (
+	"context"
 	"encoding/json"
 	"fmt"
 	"os"
@@ -78,7 +79,7 @@ func main() {
 }
 
 func worker(c *checks.Check, tier string, seed int64, shard, n int, out string) {
-	debug.SetMemoryLimit(6 << 30)
+	debug.SetMemoryLimit(3 << 30)
 	r := rep.New(c.ID, tier, seed, shard, n)
 	func() {
 		defer func() {
@@ -111,9 +112,18 @@ func parent(c *checks.Check, tier string, seed int64, n int) int {
 		wg.Add(1)
 		go func(i int) {
 			defer wg.Done()
-			cmd := exec.Command(os.Args[0], c.ID, tier, "--shard", fmt.Sprintf("%d/%d", i, n), "--out", dir)
+			limit := 20 * time.Minute
+			if tier == "thorough" {
+				limit = 90 * time.Minute
+			}
+			ctx, cancel := context.WithTimeout(context.Background(), limit)
+			defer cancel()
+			cmd := exec.CommandContext(ctx, os.Args[0], c.ID, tier, "--shard", fmt.Sprintf("%d/%d", i, n), "--out", dir)
 			cmd.Env = append(os.Environ(), "GOMAXPROCS="+gomaxprocs(n))
 			outb, err := cmd.CombinedOutput()
+			if ctx.Err() != nil {
+				err = fmt.Errorf("worker exceeded its %v wall-clock limit and was killed: %v", limit, err)
+			}
 			if err != nil {
 				tail := string(outb)
 				if len(tail) > 6000 {
